@@ -1016,9 +1016,18 @@ class Unit:
         if len(cands) != 1:
             raise Unsupported("lost anchor: fn %s in %s (%d matches)" % (spec["name"], rel, len(cands)))
         it = cands[0]
+        if not hasattr(self, "contracts_by_name"):
+            self.contracts_by_name = {}
+        self.contracts_by_name[(spec["name"] if free else "%s::%s" % (self.cur_self, spec.get("as") or spec["name"]))] = list(spec["clauses"])
         self.log["dropped_attrs"] += sum(1 for t in it.toks[it.pre:it.start] if t.text == "#")
         self.log["dropped_docs"] += sum(1 for t in it.toks[it.pre:it.start] if t.kind in (L.LCOMMENT, L.BCOMMENT))
         toks, dd, da = strip_docs_attrs(it.toks[it.start:it.end])
+        if spec.get("as"):
+            # the function is emitted under another name (a trait method re-homed next to the inherent method of the same name:
+            # inside the trait impl `self.append(x)` resolves to the INHERENT append, and so it does after the renaming)
+            fp_ = find_fn_parts(toks)
+            toks = toks[:fp_["name"]] + [L.Tok(L.IDENT, spec["as"], toks[fp_["name"]].line)] + toks[fp_["name"] + 1:]
+            self.log.setdefault("renamed", []).append({"fn": spec["name"], "as": spec["as"]})
         # comments inside bodies are dropped too (they may contain anything)
         self.log["dropped_docs"] += dd
         self.log["dropped_attrs"] += da
@@ -1133,7 +1142,7 @@ class Unit:
         full = re.sub(r"\n\s*\n+", "\n", full)
         label = ("%s::%s" % (want, spec["name"])) if not free else spec["name"]
         self.emit("    " + full.strip("\n"), label=label, repo=(rel, it.first_line, it.last_line))
-        self.log["fns"].append({"fn": label, "qual": (spec["name"] if free else "%s::%s" % (self.cur_self, spec["name"])),
+        self.log["fns"].append({"fn": label, "qual": (spec["name"] if free else "%s::%s" % (self.cur_self, spec.get("as") or spec["name"])),
                                 "contract": spec["clauses"], "file": rel, "lines": [it.first_line, it.last_line],
                                 "clauses": len(spec["clauses"]), "loop_specs": sum(len(v) for v in spec["loops"].values()),
                                 "body_tokens": len(code_toks(body))})
@@ -1560,6 +1569,9 @@ class Unit:
                     elif parts[k] == "vis":
                         spec["vis"] = parts[k + 1]
                         k += 2
+                    elif parts[k] == "as":
+                        spec["as"] = parts[k + 1]
+                        k += 2
                     else:
                         raise Unsupported("bad fn directive: " + d)
                 # gather clause lines
@@ -1574,6 +1586,13 @@ class Unit:
                         if not ms:
                             raise Unsupported("bad //@subst directive: " + nx)
                         spec.setdefault("subst", []).append((ms.group(1), ms.group(2)))
+                    elif nx.startswith("//@contract_of "):
+                        # reuse, verbatim, the contract clauses given earlier in this unit to another function (Type::name)
+                        key = nx[len("//@contract_of "):].strip()
+                        store = getattr(self, "contracts_by_name", {})
+                        if key not in store:
+                            raise Unsupported("//@contract_of %s: no such function specified earlier in the unit" % key)
+                        spec["clauses"].extend(store[key])
                     elif nx.startswith("//@closure "):
                         mc = re.match(r"//@closure\s+(\d+)\|\s*\((.*?)\)\s*->\s*([^|]*?)\s*(?:\|\s*ensures\s+(.*))?$", nx)
                         if not mc:
